@@ -25,6 +25,7 @@ FieldSeqs(form) == { << [m |-> "name", n |-> "a"], [m |-> "ty", t |-> Ty1(form)]
                      << [m |-> "ty", t |-> Ty1(form)] >>,
                      << [m |-> "type_name", tn |-> "T1"], [m |-> "ty", t |-> TyPh(form)] >>,
                      << [m |-> "name", n |-> "a"], [m |-> "ty", t |-> TyPh(form)] >>,
+                     << [m |-> "name", n |-> "b"], [m |-> "ty", t |-> TyPh(form)] >> \o SetToSeq(DocCalls(form)),      \* a DOCUMENTED phantom member
                      << [m |-> "name", n |-> "a"] >>,            \* no type: never accepted
                      << >> }
 FSCalls(form) == {[m |-> "field", seq |-> s] : s \in FieldSeqs(form)} \cup {C("finalize")}
